@@ -1,8 +1,211 @@
-/- Model driver for C14 (stub: no ops yet). -/
+/-
+  Model driver for C14 (heap model of data collections).  One request line = one history:
+    H <mode> ; <cmd> ; <cmd> ...
+  cmd:  new <cls> <isMut> <validated> <dtype> <unit> <ap list> <md list> <dts list> <vals list>
+        d <idx> <derive-op> args     m <idx> <mutator> args     w <idx> <idx>
+  Lists are length-prefixed.  Answer: per command `<status> # <obs of live 0> # <obs of live 1> ...`,
+  commands joined by ` | `.
+-/
 import Ladybug.DrvCore
+import Ladybug.Model.Heap
+
+open Drv LbHeap
 
 namespace DrvC14
-def handle (_toks : List String) : String := "bad-op"
+
+def showErr : Err → String
+  | .attr => "err:attr" | .assert => "err:assert" | .value => "err:value"
+  | .index => "err:index" | .zero => "err:zero" | .type => "err:type"
+
+def showCls : Cls → String
+  | .hd => "hd" | .hc => "hc" | .daily => "daily" | .monthly => "monthly" | .mph => "mph"
+
+def cls? : String → Option Cls
+  | "hd" => some .hd | "hc" => some .hc | "daily" => some .daily
+  | "monthly" => some .monthly | "mph" => some .mph | _ => none
+
+def commaJoin (l : List String) : String := ",".intercalate l
+
+def showObs (o : Obs) : String :=
+  let md := o.md.mergeSort (fun a b => a.1 ≤ b.1)
+  s!"{showCls o.cls} {showBool o.isMut} {showBool o.validated} {o.dtype} {o.unit} " ++
+  "A:" ++ commaJoin (o.ap.map toString) ++ " M:" ++
+  commaJoin (md.map fun p => toString p.1 ++ "=" ++ p.2) ++
+  " D:" ++ commaJoin (o.dts.map toString) ++ " V:" ++ commaJoin (o.vals.map showRat)
+
+def showLive (h : Heap) (live : List Ref) : String :=
+  " # ".intercalate (live.map fun c => match obs h c with | some o => showObs o | none => "?")
+
+/-- Parser over the token list. -/
+abbrev P := StateT (List String) Option
+
+def tok : P String := do
+  let s ← get
+  match s with
+  | [] => failure
+  | t :: r => set r; pure t
+
+def pNat : P Nat := do let t ← tok; match t.toNat? with | some n => pure n | none => failure
+def pInt : P Int := do let t ← tok; match t.toInt? with | some n => pure n | none => failure
+def pRat : P Rat := do let t ← tok; match rat? t with | some n => pure n | none => failure
+def pBool : P Bool := do let t ← tok; match bool? t with | some n => pure n | none => failure
+
+def pList {α : Type} (p : P α) : P (List α) := do
+  let n ← pNat
+  let rec go : Nat → P (List α)
+    | 0 => pure []
+    | k + 1 => do let x ← p; let r ← go k; pure (x :: r)
+  go n
+
+def pMeta : P (List (Nat × MV)) := pList (do let k ← pNat; let v ← tok; pure (k, v))
+
+def pOptNat : P (Option Nat) := do
+  let t ← tok
+  if t = "-" then pure none else match t.toNat? with | some n => pure (some n) | none => failure
+
+def pOptBool : P (Option Bool) := do
+  let t ← tok
+  if t = "-" then pure none else match bool? t with | some n => pure (some n) | none => failure
+
+def pOperand (live : List Ref) : P Operand := do
+  let t ← tok
+  if t = "s" then do let q ← pRat; pure (.scalar q)
+  else if t = "c" then do
+    let i ← pNat
+    match live[i]? with | some r => pure (.coll r) | none => failure
+  else failure
+
+def pDOp (live : List Ref) : P DOp := do
+  let name ← tok
+  match name with
+  | "add" => do let x ← pOperand live; pure (.arith .add x)
+  | "sub" => do let x ← pOperand live; pure (.arith .sub x)
+  | "mul" => do let x ← pOperand live; pure (.arith .mul x)
+  | "div" => do let x ← pOperand live; pure (.arith .div x)
+  | "neg" => pure .neg
+  | "dup" => pure .dup
+  | "to_mutable" => pure .toMutable
+  | "to_immutable" => pure .toImmutable
+  | "to_disc" => pure .toDisc
+  | "to_unit" => do let u ← pNat; pure (.toUnit u)
+  | "to_ip" => pure .toIp
+  | "to_si" => pure .toSi
+  | "aligned" => do
+      let t ← tok
+      let v ← if t = "s" then (do let q ← pRat; pure (AlignVal.scalar q))
+              else if t = "l" then (do let l ← pList pRat; pure (AlignVal.list l)) else failure
+      let u ← pOptNat
+      let mt ← pOptBool
+      pure (.aligned v u mt)
+  | "filter_pattern" => do let m ← pList pBool; pure (.filterPattern m)
+  | "filter_range" => do let a ← pRat; let b ← pRat; pure (.filterRange a b)
+  | "filter_keys" => do let k ← pList pNat; pure (.filterKeys k)
+  | "filter_ap" => do
+      let ap ← pList pNat; let k ← pList pNat; let c ← pBool; pure (.filterAp ap k c)
+  | "cull" => do let ts ← pNat; pure (.cull ts)
+  | "agg" => do
+      let iv ← tok
+      let iv ← match iv with
+        | "daily" => pure Interval.daily | "monthly" => pure Interval.monthly
+        | "mph" => pure Interval.mph | _ => failure
+      let nm ← tok; let d ← pList pNat; let v ← pList pRat
+      pure (.agg iv nm d v)
+  | "validate" => do
+      let ap ← pList pNat; let d ← pList pNat; let v ← pList pRat; pure (.validate ap d v)
+  | "interp_holes" => do let d ← pList pNat; let v ← pList pRat; pure (.interpHoles d v)
+  | "interp_ts" => do
+      let ts ← pNat; let d ← pList pNat; let v ← pList pRat; pure (.interpTs ts d v)
+  | "cfa" => do let x ← pOperand live; let u ← pNat; pure (.cfa x u)
+  | _ => failure
+
+def pMOp : P MOp := do
+  let name ← tok
+  match name with
+  | "conv_unit" => do let u ← pNat; pure (.convUnit u)
+  | "conv_ip" => pure .convIp
+  | "conv_si" => pure .convSi
+  | "set_values" => do let v ← pList pRat; pure (.setValues v)
+  | "set_item" => do let i ← pInt; let x ← pRat; pure (.setItem i x)
+  | "meta_set" => do let k ← pNat; let v ← tok; pure (.metaSet k v)
+  | "meta_replace" => do let m ← pMeta; pure (.metaReplace m)
+  | "cull_inplace" => do let ts ← pNat; pure (.cullInplace ts)
+  | _ => failure
+
+def shareStr (h : Heap) (live : List Ref) (r : Ref) : String :=
+  let parts := live.zipIdx.filterMap fun p =>
+    let s := shareSig h r p.1
+    if s = "" then none else some (toString p.2 ++ ":" ++ s)
+  "share=" ++ commaJoin parts
+
+/-- Run one command; returns the new state and the status text. -/
+def runCmd (mode : Mode) (h : Heap) (live : List Ref) (toks : List String) :
+    Option (Heap × List Ref × String) :=
+  match toks with
+  | "new" :: rest =>
+    let p : P (Heap × Ref) := do
+      let c ← tok
+      let c ← match cls? c with | some c => pure c | none => failure
+      let mt ← pBool; let vd ← pBool; let dt ← pNat; let u ← pNat
+      let ap ← pList pNat; let md ← pMeta; let d ← pList pNat; let v ← pList pRat
+      pure (build h c mt vd dt u ap md d v)
+    match p.run rest with
+    | some ((h', r), []) => some (h', live ++ [r], s!"ok {live.length}")
+    | _ => none
+  | "d" :: i :: rest =>
+    match i.toNat? >>= (live[·]?) with
+    | none => none
+    | some c =>
+      match (pDOp live).run rest with
+      | some (op, []) =>
+        match derive mode h c op with
+        | .error e => some (h, live, showErr e)
+        | .ok (h', r) => some (h', live ++ [r], s!"ok {live.length} " ++ shareStr h' live r)
+      | _ => none
+  | "m" :: i :: rest =>
+    match i.toNat? >>= (live[·]?) with
+    | none => none
+    | some c =>
+      match pMOp.run rest with
+      | some (op, []) =>
+        match mutate mode h c op with
+        | .error e => some (h, live, showErr e)
+        | .ok h' => some (h', live, "ok")
+      | _ => none
+  | ["w", i, j] =>
+    match i.toNat? >>= (live[·]?), j.toNat? >>= (live[·]?) with
+    | some d, some a =>
+      match windrose mode h d a with
+      | .error e => some (h, live, showErr e)
+      | .ok (h', rd, ra) =>
+        some (h', live ++ [rd, ra],
+          s!"ok {live.length} " ++ shareStr h' live rd ++ " " ++ shareStr h' (live ++ [rd]) ra)
+    | _, _ => none
+  | _ => none
+
+def splitOnSemi (toks : List String) : List (List String) :=
+  let rec go : List String → List String → List (List String) → List (List String)
+    | [], cur, acc => (cur.reverse :: acc).reverse
+    | t :: r, cur, acc => if t = ";" then go r [] (cur.reverse :: acc) else go r (t :: cur) acc
+  go toks [] []
+
+def runHist (mode : Mode) (cmds : List (List String)) : String :=
+  let rec go : List (List String) → Heap → List Ref → List String → String
+    | [], _, _, acc => " | ".intercalate acc.reverse
+    | c :: rest, h, live, acc =>
+      match runCmd mode h live c with
+      | none => "bad-op"
+      | some (h', live', st) => go rest h' live' ((st ++ " # " ++ showLive h' live') :: acc)
+  go cmds Heap.empty [] []
+
+def handle (toks : List String) : String :=
+  match toks with
+  | "H" :: mode :: ";" :: rest =>
+    match mode with
+    | "fixed" => runHist .fixed (splitOnSemi rest)
+    | "pinned" => runHist .pinned (splitOnSemi rest)
+    | _ => "bad-op"
+  | _ => "bad-op"
+
 end DrvC14
 
 def main : IO Unit := Drv.run DrvC14.handle
